@@ -342,6 +342,28 @@ def set_path(root, path, value):
         parent[idx[0] if len(idx) == 1 else idx] = value
 
 
+def get_model(t, mv, path):
+    """Model value at path (references transparent)."""
+    path = [s for s in path if s[0] != "t"]
+    while True:
+        k = t["k"]
+        if k == "ref" and path:
+            t = t["to"]
+            continue
+        if k == "ur" and path:
+            t, mv = t["m"][mv[0]], mv[1]
+            continue
+        if not path:
+            return t, mv
+        st, path = path[0], path[1:]
+        if k == "st":
+            t, mv = dict((a, b) for a, b in t["f"])[st[1]], mv[st[1]]
+        elif k == "ar":
+            t, mv = t["it"], mv.items[st[1]]
+        else:
+            raise ValueError(k)
+
+
 def set_model(t, mv, path, value):
     """Functional update of the model value at path (steps as above)."""
     path = [s for s in path if s[0] != "t"]
